@@ -305,6 +305,38 @@ void vf_harness(void) { TV q; parseQuery(q); VF_CANARY(); }
 )
 UNITS += [read_headers, parse_query]
 
+# ---- header names are case-insensitive (RFC 7230 3.2): setHeader / header / hasHeader all key the dictionary with capitalized(name), so what matters is that
+# capitalized() maps names that differ only in ASCII case to the SAME key
+capitalized_unit = Unit(
+    'Http_capitalized', 'C09',
+    cuts=[Cut('cap', HC, r'^String capitalized\(const String& name\)\s*$',
+              rules=[(r'String cname = name;', '', 1), (r'char\*\s+pname = cname\.data\(\);', 'char* pname = name_buf;', 1), (r'cname\.length\(\)', 'name_len', None), (r'return cname;', 'return;', 1)])],
+    text=PRE + r'''
+/* toupper / tolower in the C locale (ISO C 7.4.2) */
+static int toupper(int c) { return (c >= 'a' && c <= 'z') ? c - 32 : c; }
+static int tolower(int c) { return (c >= 'A' && c <= 'Z') ? c + 32 : c; }
+#define NL 8
+static void capitalized(char* name_buf, int name_len) @@cap@@
+void vf_harness(void) {
+  char a[NL], b[NL]; int n = nondet_int(); __CPROVER_assume(0 <= n && n <= NL);
+  for (int i = 0; i < NL; i++) { a[i] = nondet_char(); b[i] = nondet_char(); __CPROVER_assume(i >= n || (a[i] != 0 && tolower(a[i]) == tolower(b[i]))); }
+  capitalized(a, n); capitalized(b, n);
+  int k = nondet_int(); __CPROVER_assume(0 <= k && k < n);
+  __CPROVER_assert(a[k] == b[k], "names that differ only in the case of ASCII letters get the same dictionary key");
+  char c = a[k]; char a2[NL]; for (int i = 0; i < NL; i++) a2[i] = a[i]; capitalized(a2, n);
+  __CPROVER_assert(a2[k] == c, "the canonical form is a fixed point");
+  VF_CANARY();
+}
+''',
+    entry=None, unwind=10, floor=2, expect=['assertion'], kind='bounded', bound='header names of at most 8 characters (every position: first, after a hyphen, elsewhere)',
+    desc='capitalized(name): header names equal up to ASCII case map to the same key (so header()/hasHeader()/setHeader() are case-insensitive), and the key is a fixed point',
+    functions=['capitalized (HttpMessage::setHeader / header / hasHeader key)'],
+    trusted=['toupper/tolower in the C locale'],
+)
+# the socket read loop under the line reader: a peer closing in the middle of a line must end it (units of C10, re-run here)
+from units.C10 import sock_read as _sr9, sock_read_small as _srs9
+UNITS += [capitalized_unit, _sr9, _srs9]
+
 # replay for the receiving-loop units (shared with C10): the C10 driver's battery on the real HttpRequest reader
 for _u in (read_body_loop, read_body_outer, read_headers):
     if not _u.replay:
